@@ -737,6 +737,70 @@ fn templates() -> Vec<(&'static str, Cfg, Vec<Ev>)> {
             Ev::Deliver(usize::MAX, true, true),                    // S5 commits index 2 (term 4): index 1 = 2:22
         ],
     ));
+    // T6: a re-elected leader must start from a FRESH match_index: a stale entry from its first
+    // leadership (a follower whose suffix has been overwritten since) must not count towards a quorum.
+    v.push((
+        "stale-match-index-after-reelection",
+        cfg5(),
+        vec![
+            Ev::Timeout(0, true),                                   // n0 candidate term 1
+            Ev::Inject(0, 1, M::Rv(1, 0, 0, 0), true, true),
+            Ev::Inject(0, 2, M::Rv(1, 0, 0, 0), true, true),
+            Ev::Inject(1, 0, M::Rvr(1, true, 1), true, true),
+            Ev::Inject(2, 0, M::Rvr(1, true, 2), true, true),       // n0 leader term 1
+            Ev::Propose(0, 101, true),
+            Ev::Propose(0, 102, true),
+            Ev::Propose(0, 103, true),                              // n0: [1:101,1:102,1:103]
+            Ev::Replicate(0, 1),
+            Ev::Deliver(usize::MAX, true, true),                    // n1 appends 3 entries
+            Ev::Deliver(usize::MAX, true, true),                    // n0: match_index[n1] = 3
+            Ev::Timeout(3, true),
+            Ev::Timeout(3, true),                                   // n3 candidate term 2
+            Ev::Inject(3, 2, M::Rv(2, 3, 0, 0), true, true),
+            Ev::Inject(3, 4, M::Rv(2, 3, 0, 0), true, true),
+            Ev::Inject(2, 3, M::Rvr(2, true, 2), true, true),
+            Ev::Inject(4, 3, M::Rvr(2, true, 4), true, true),       // n3 leader term 2
+            Ev::Propose(3, 201, true),                              // n3: [2:201]
+            Ev::Replicate(3, 1),
+            Ev::Deliver(usize::MAX, true, true),                    // n1 overwrites: [2:201]
+            Ev::Deliver(usize::MAX, true, true),
+            Ev::Replicate(3, 0),
+            Ev::Deliver(usize::MAX, true, true),                    // n0 deposed, log -> [2:201]
+            Ev::Deliver(usize::MAX, true, true),
+            Ev::Timeout(0, true),                                   // n0 candidate term 3
+            Ev::Inject(0, 2, M::Rv(3, 0, 1, 2), true, true),
+            Ev::Inject(0, 4, M::Rv(3, 0, 1, 2), true, true),
+            Ev::Inject(2, 0, M::Rvr(3, true, 2), true, true),
+            Ev::Inject(4, 0, M::Rvr(3, true, 4), true, true),       // n0 leader term 3 again
+            Ev::Propose(0, 301, true),
+            Ev::Propose(0, 302, true),                              // n0: [2:201,3:301,3:302]
+            Ev::Replicate(0, 2),
+            Ev::Deliver(usize::MAX, true, true),
+            Ev::Deliver(usize::MAX, true, true),
+            Ev::Replicate(0, 2),
+            Ev::Deliver(usize::MAX, true, true),
+            Ev::Deliver(usize::MAX, true, true),                    // n2 holds 3 entries: 2 of 5 nodes, no commit
+            Ev::Inject(0, 3, M::Rv(3, 0, 1, 2), true, true),        // n3 learns term 3
+            Ev::Timeout(3, true),                                   // n3 candidate term 4
+            Ev::Inject(3, 1, M::Rv(4, 3, 1, 2), true, true),
+            Ev::Inject(3, 4, M::Rv(4, 3, 1, 2), true, true),
+            Ev::Inject(1, 3, M::Rvr(4, true, 1), true, true),
+            Ev::Inject(4, 3, M::Rvr(4, true, 4), true, true),       // n3 leader term 4 with [2:201]
+            Ev::Propose(3, 401, true),                              // n3: [2:201,4:401]
+            Ev::Replicate(3, 1),
+            Ev::Deliver(usize::MAX, true, true),
+            Ev::Deliver(usize::MAX, true, true),
+            Ev::Replicate(3, 1),
+            Ev::Deliver(usize::MAX, true, true),
+            Ev::Deliver(usize::MAX, true, true),
+            Ev::Replicate(3, 4),
+            Ev::Deliver(usize::MAX, true, true),
+            Ev::Deliver(usize::MAX, true, true),
+            Ev::Replicate(3, 4),
+            Ev::Deliver(usize::MAX, true, true),
+            Ev::Deliver(usize::MAX, true, true),                    // n3 commits position 2 = 4:401
+        ],
+    ));
     // T4: the same with 5 voters: two disjoint pairs vote, the fifth voter hears the heartbeat first
     v.push((
         "late-vote-request-after-heartbeat-5",
